@@ -263,7 +263,15 @@ def is_slave_only_tree(prog, body, tree):
     t = df.strip(tree)
     f = df.named_fields(t)
     if f and f[-1] == "slave_only":
-        return True
+        # it must be THE flag of defaultDS (the live one), not a copy cached somewhere else
+        if "default_ds" in f:
+            return True
+        if t[0] == "path" and t[1][0] in ("arg", "local") and len(f) == 1:
+            ty = body.local_ty(t[1][1])
+            while ty["k"] == "ref":
+                ty = body.ty(ty["to"])
+            return ty["k"] == "adt" and ty.get("name") == "InternalDefaultDS"
+        return False
     if t[0] == "call" and t[2] in ("with_ref", "with_mut") and len(t[3]) >= 2:
         clo = df.strip(t[3][1])
         if clo[0] == "agg" and clo[1].startswith("closure:"):
